@@ -10,6 +10,7 @@ import Hagall.Spec.Monitors
 import Hagall.Model.Latency
 import Hagall.Model.Auth
 import Hagall.Model.GridReplay
+import Hagall.Spec.Views
 open Hagall Hagall.Wire
 
 structure Block where
@@ -153,7 +154,7 @@ def finishHist (h : Hist) : IO Unit := do
   match h.diff with
   | none => IO.println s!"R {h.idx} ok events={h.nEvents} deliveries={h.nDeliv}"
   | some d => IO.println s!"R {h.idx} diff {(d.replace "\n" " ")}"
-  for v in Spec.runMonitors h.cfg h.steps.toList do
+  for v in Spec.runMonitors h.cfg h.steps.toList ++ Spec.runViews h.cfg h.steps.toList do
     IO.println s!"M {h.idx} {v.prop} {v.cause} event={v.event} :: {v.detail}"
 
 /-- `STAT n l_1 .. l_{n-1} L | min max mean p95 last sig count=.. ids=..`: one completed measurement of the real
